@@ -1156,23 +1156,28 @@ type VIfaceObj struct {
 func (x *Exec) typeAssert(st *State, i *ssa.TypeAssert) Value {
 	v := x.val(st, i.X)
 	named, _ := i.AssertedType.(*types.Named)
-	if named != nil && !types.IsInterface(i.AssertedType) {
-		// assertion to a named concrete type T: succeeds iff the uninterpreted predicate isT(m) holds
-		// (declared in the spec library); the extracted value is unconstrained
+	if !types.IsInterface(i.AssertedType) {
+		// assertion to a concrete type T: succeeds iff an uninterpreted predicate of the interface
+		// value holds - isT(m) when the spec library declares it (then contracts can require it),
+		// otherwise an anonymous one; the extracted value is unconstrained
 		if s, isSc := v.(VScalar); isSc && s.Ty.K == TIface {
-			name := "is" + named.Obj().Name()
-			fn := x.W.SpecFns[name]
-			if fn == nil || fn.Body != nil || len(fn.Params) != 1 {
-				vfail("type assertion to %s: declare the uninterpreted predicate 'spec func %s(m iface) bool'", named.Obj().Name(), name)
+			var ok *Term
+			tname := types.TypeString(i.AssertedType, func(p *types.Package) string { return p.Name() })
+			if named != nil {
+				if fn := x.W.SpecFns["is"+named.Obj().Name()]; fn != nil && fn.Body == nil && len(fn.Params) == 1 {
+					ok = App(specFnSym("is"+named.Obj().Name()), BoolSort, s.T)
+				}
 			}
-			ok := App(specFnSym(name), BoolSort, s.T)
+			if ok == nil {
+				ok = App(specFnSym("dyntype."+sanitizeSym(tname)), BoolSort, s.T)
+			}
 			st.assume(Implies(Eq(s.T, BVInt(0, 32)), Not(ok)))
-			res, facts := x.freshValue(tyFromGo(i.AssertedType), "asserted."+named.Obj().Name(), st)
+			res, facts := x.freshValue(tyFromGo(i.AssertedType), "asserted."+sanitizeSym(tname), st)
 			for _, f := range facts {
 				st.assume(f)
 			}
 			if !i.CommaOk {
-				x.oblige(st, "typeassert", instrOrd(i), "type assertion to "+named.Obj().Name()+" succeeds (no panic)", i.Pos(), ok)
+				x.oblige(st, "typeassert", instrOrd(i), "type assertion to "+tname+" succeeds (no panic)", i.Pos(), ok)
 				st.assume(ok)
 				return res
 			}
@@ -1211,6 +1216,18 @@ func (x *Exec) typeAssert(st *State, i *ssa.TypeAssert) Value {
 		return res
 	}
 	return VTuple{[]Value{res, VScalar{ok, tyBool}}}
+}
+
+func sanitizeSym(n string) string {
+	var b strings.Builder
+	for _, r := range n {
+		if r >= 'a' && r <= 'z' || r >= 'A' && r <= 'Z' || r >= '0' && r <= '9' || r == '_' {
+			b.WriteRune(r)
+		} else {
+			b.WriteRune('_')
+		}
+	}
+	return b.String()
 }
 
 // ---------- constants ----------
